@@ -65,7 +65,8 @@ def gen_cfg(rng, tier: str, big: bool = False, backing: str | None = "maybe") ->
         "comp_far": rng.choice([0, 0, 0, 1 << 32, 1 << 42]),
         "comp_level": rng.choice([1, 6, 9]), "comp_pack": rng.choice(["tight", "sector", "odd"]),
         "l1_extra": rng.choice([0, 0, 1, 5]),
-        "snap_far": rng.choice([0, 0, 0, 1 << 32, 1 << 42]),  # snapshot table (and snapshot L1 tables) beyond 4 GiB
+        "snap_far": rng.choice([0, 0, 0, 1 << 32, 1 << 42]),
+        "backing_gap": rng.choice([0, 0, 8, 3, 100, "end"]),  # where in the first cluster the backing file name sits  # snapshot table (and snapshot L1 tables) beyond 4 GiB
         "extl2_zero_as": rng.choice(["bit", "bit", "data"]), "extl2_keep_offset": rng.random() < 0.5,
         "backing": None,
     }
@@ -354,7 +355,13 @@ def render(cfg: dict, roots: list[Root], name: str = "disk.qcow2") -> Image:
         bname = cfg["backing"]["name"].encode()
         backing_off = hl + len(ext_blob)
         backing_len = len(bname)
-    assert hl + len(ext_blob) + len(bname) <= cs, "header area must fit the first cluster"
+        gap = cfg.get("backing_gap", 0)
+        if gap == "end":
+            backing_off = cs - len(bname)
+        elif backing_off + gap + len(bname) <= cs:
+            backing_off += gap
+    assert hl + len(ext_blob) <= backing_off or not bname, "backing name must follow the extensions"
+    assert (backing_off + len(bname) if bname else hl + len(ext_blob)) <= cs, "header area must fit the first cluster"
     hdr = struct.pack(">IIQIIQIIQQIIQ", MAGIC, cfg["version"], backing_off, backing_len, cb, size, 0, l1_sizes[0],
                       meta_pos[("l1", 0)], meta_pos[("reftable", 0)], 1, len(snap_entries), snap_off)
     if cfg["version"] == 3:
@@ -362,7 +369,9 @@ def render(cfg: dict, roots: list[Root], name: str = "disk.qcow2") -> Image:
         if hl > 104:
             hdr += struct.pack(">B", 0) + bytes(hl - 105)
     assert len(hdr) == hl
-    f.write(0, hdr + ext_blob + bname)
+    f.write(0, hdr + ext_blob)
+    if bname:
+        f.write(backing_off, bname)
     for n, off, w, k in [("magic", 0, 4, "magic"), ("version", 4, 4, "version"), ("backing_file_offset", 8, 8, "offset"),
                          ("backing_file_size", 16, 4, "size"), ("cluster_bits", 20, 4, "size"), ("size", 24, 8, "size"),
                          ("crypt_method", 32, 4, "int"), ("l1_size", 36, 4, "count"), ("l1_table_offset", 40, 8, "offset"),
